@@ -32,8 +32,15 @@ def _cfgs_for(idx):
     return [(u, w, s) for (w, s) in env.SEMANTIC_CFGS]
 
 
-def check_skeleton(part, sk, placement, cfgs, scheds, seed=0):
-    src = cf.program(sk, placement)
+def _has_for(sk):
+    return any(s[0] == "for" or (len(s) == 3 and (_has_for(s[1]) or _has_for(s[2]))) for s in sk)
+
+
+def check_skeleton(part, sk, placement, cfgs, scheds, seed=0, walrus_iter=False):
+    walrus_iter = walrus_iter and _has_for(sk)
+    src = cf.program(sk, placement, walrus_iter=walrus_iter)
+    if walrus_iter:
+        part["classes"]["walrus-in-for-iterable"] += 1
     feats = cf.features(sk)
     part["evaluations"] += 1
     part["classes"]["placement:" + placement] += 1
@@ -57,7 +64,7 @@ def check_skeleton(part, sk, placement, cfgs, scheds, seed=0):
         return
     candidate = ("interrupt-in-loop" in feats) or ("conditional-return" in feats)
     if candidate:
-        tsrc = cf.program(sk, placement, trace_interrupts=True)
+        tsrc = cf.program(sk, placement, trace_interrupts=True, walrus_iter=walrus_iter)
         taken = False
         for s, _ in origs:
             o = run_code(tsrc, "exec", Kit(s, 2 * ORIG_FUEL), want_globals=False)
@@ -106,7 +113,7 @@ def _sweep_shard(item):
     for idx in range(shard, len(sks), nshards):
         if len(part["violations"]) >= 3:
             break
-        check_skeleton(part, sks[idx], placement, _cfgs_for(idx), SCHEDS)
+        check_skeleton(part, sks[idx], placement, _cfgs_for(idx), SCHEDS, walrus_iter=(idx % 4 == 1))
     return part
 
 
@@ -120,7 +127,7 @@ def _sample_shard(item):
     def body(case):
         placement, sk, rs = case
         sub = new_part()
-        check_skeleton(sub, sk, placement, env.ALL_CFGS, (0, 2, rs), seed=seed & 0xffff)
+        check_skeleton(sub, sk, placement, env.ALL_CFGS, (0, 2, rs), seed=seed & 0xffff, walrus_iter=(rs % 3 == 0))
         for k in ("evaluations",):
             part[k] += sub[k]
         part["nontrivial"] |= sub["nontrivial"]
